@@ -45,6 +45,21 @@ CLAIMED.update({
         note="Trusted: the stack-of-maps reference; keys are distinct within one frame (the statement's quantifier); programs are well nested by construction."),
 })
 
+CLAIMED.update({
+    "C04": dict(engine="ctx-spans-tree", design="5/C04",
+        technique="deterministic simulation: generated span trees through the real span macros executed on seeded lanes with hand-offs, checked against the known tree over the recorded history",
+        text="Seeded exploration of span trees (sync fn, async fn, new_span!, Result fn, guard parameter; filter-disabled nodes; events and observations at arbitrary points; incoming ids as typed values or hex text) split over 1-3 tasks plus carried-frame sibling tasks and hand-off threads, polled one poll at a time on 1-3 lanes. The interpreter knows the tree; every recorded span and event must carry the root's (or incoming) trace id, span_parent must be the id of the nearest enabled ancestor, ids must be non-zero and pairwise distinct, events and SpanCtxt::current must show the innermost enabled span, and ambient ids must revert when a span ends.",
+        note="Trusted: the interpreter's tree bookkeeping; the counter rng never repeats; cancellation is excluded here (a cancelled async span completes outside its frame; C05 covers it and asserts no ids)."),
+    "C05": dict(engine="ctx-spans-completion", design="5/C05",
+        technique="deterministic simulation: generated guard-operation sequences and macro span forms with injected exit paths (Err, panic, early completion, cancellation) under scripted clocks (forward, equal, backwards, unavailable)",
+        text="Seeded exploration of operation sequences on manual SpanGuards (with_mdl/with_name/with_props/map_props/with_completion/start repeated/complete/complete_with/drop) with uniform erased types so any order type-checks, plus all macro forms (span attribute on sync/async/Result functions, guard parameter, ok_lvl/err_lvl/panic_lvl, new_span!) and exit paths. Oracle: completions per guard = 1 iff enabled and started, is_enabled and returned bools agree with the model after every operation, extent = range [reading at start, reading at completion] attributed through a per-strand clock log (also when it runs backwards), name/module/props/completion as last set, panic adds err and the panic level.",
+        note="Trusted: the guard model; clock readings are attributed to strands through a thread-local set at every poll."),
+    "C18": dict(engine="ctx-spans-traceparent", design="5/C18",
+        technique="deterministic simulation: generated span trees over the real emit_traceparent runtime pieces with a scripted sampler, incoming headers, header propagation to fresh tasks, hand-offs and seeded interleavings",
+        text="Seeded exploration over TraceparentCtxt<ThreadLocalCtxt> + TraceparentFilter with a scripted per-root sampler decision (optionally and in_sampled_trace_filter): the sampler log must show exactly one call per new trace at its root and none for children or continued traces; unsampled traces record no span (and no event with the sampled-trace filter) and report an unsampled traceparent; in sampled traces Traceparent::current() = (trace id, innermost span id, sampled) at every observation on every thread/task, a formatted header parsed and pushed in a fresh task makes its first span a child of the caller's span, and the previous traceparent is restored after every exit, suspend and panic (checked on every lane after every poll).",
+        note="Trusted: the interpreter's tree bookkeeping; thread/task hand-offs use Frame::current(rt.ctxt()), the documented way to carry ambient context."),
+})
+
 PENDING = {
     "C03": "check not built yet (ctx engine in progress); will be claimed",
     "C04": "check not built yet (ctx engine in progress); will be claimed",
@@ -99,6 +114,12 @@ def main():
              "kind_free_text": "single-OS-thread deterministic simulation of the real emit_batcher channel: seeded interleaver, virtual clock, scripted fault-injecting processor, reference queue"},
             {"name": "ctx-frames", "path": "/verif/sim/src/ctx_frames.rs", "serves_properties": ["C03"],
              "kind_free_text": "generated frame programs on a seeded lane executor (real threads, one poll at a time), panic and cancellation injection, stack-of-maps reference"},
+            {"name": "ctx-spans-tree", "path": "/verif/sim/src/span_interp.inc.rs", "serves_properties": ["C04"],
+             "kind_free_text": "generated span trees through the real macros on the seeded lane executor, plain ThreadLocalCtxt runtime"},
+            {"name": "ctx-spans-completion", "path": "/verif/sim/src/span_interp.inc.rs", "serves_properties": ["C05"],
+             "kind_free_text": "generated guard operation sequences and exit paths under scripted clocks"},
+            {"name": "ctx-spans-traceparent", "path": "/verif/sim/src/span_interp.inc.rs", "serves_properties": ["C18"],
+             "kind_free_text": "generated span trees over the emit_traceparent runtime pieces with scripted sampler and incoming headers"},
             {"name": "fsim-faults", "path": "/verif/sim/src/fsim.rs", "serves_properties": ["C10"],
              "kind_free_text": "real emit_file worker over a fault-injecting in-memory filesystem (written vs synced, durable vs volatile entries); single-fault enumeration per generated history + sampled multi-fault sequences"},
             {"name": "fsim-rolling", "path": "/verif/sim/src/fsim.rs", "serves_properties": ["C11"],
